@@ -164,7 +164,8 @@ def phase_check(pids):
     # filter phase is still writing its state.
     st = load()
     checked = load_checked()
-    todo = [k for k, m in st["mutants"].items() if m.get("suite") == "survives" and k not in checked and set(m["props"]) & set(pids)]
+    todo = [k for k, m in st["mutants"].items() if m.get("suite") == "survives" and k not in checked and set(m["props"]) & set(pids)
+            and not (os.environ.get("MUTSCAN_SKIP") and m["file"].startswith(tuple(os.environ["MUTSCAN_SKIP"].split(","))))]
     print("survivors to check: %d" % len(todo), flush=True)
     allcov = {pid: covered_lines(pid) for pid in anchors()}
     wt = worktree("c")
